@@ -91,6 +91,30 @@ def two_field_trees() -> list[Any]:
     ]
 
 
+def linked_node_trees() -> list[Any]:
+    """A PROPERTY (annotated Any) whose value happens to be a node - a resolved cross-reference: it
+    is no child, so no step ever reaches it through that field."""
+    from models.zoo import VLeaf
+
+    L = lambda v: R("VLeaf", {"v": v})  # noqa: E731
+    outside = VLeaf(v=770)  # not part of any tree
+    return [
+        R("VMany", items=(R("VTyped", {"a": outside, "i": 1}, kid=L(71)), R("VTyped", {"a": None}, kid=L(72), kids=(L(73),)))),
+        R("VReq", child=R("VTyped", {"a": (outside,), "u": "x"}, kids=(L(74), L(75)))),
+    ]
+
+
+def linked_node_paths() -> list[tuple[list[tuple], bool]]:
+    out = []
+    for anywhere in (False, True):
+        for fld in ("a", "kid", "kids", "u"):
+            for idx in (None, "any", "0"):
+                for cls in ("VLeaf", "VBase"):
+                    out.append(([(True, None, None, "VTyped"), (anywhere, fld, idx, cls)], False))
+                    out.append(([(anywhere, fld, idx, cls)], True))
+    return out
+
+
 def two_field_paths() -> list[tuple[list[tuple], bool]]:
     out = []
     for anywhere in (False, True):
@@ -253,6 +277,7 @@ def spec(tier: str, seed: int) -> Spec:
     rp = paths[:: (29 if tier == "quick" else 9)]
     rch = max(1, len(rp) // 8)
     fams += [Family(f"after-a-rejected-definition[{k}:{k + rch}]", make_harness(rp[k : k + rch], after_rejected=True), variables="selectors: rejected definition compiled first (7 texts x 2 entry points), xpath derivation, tree") for k in range(0, len(rp), rch)]
+    fams.append(Family("property-holding-a-node", make_harness(linked_node_paths(), linked_node_trees()), variables="selectors: xpath naming a property field / a child field, tree"))
     fams.append(Family("two-sequence-fields", make_harness(two_field_paths(), two_field_trees()), variables="selectors: xpath (index with and without a field name), tree"))
     fams.append(Family("slotted-classes", make_harness(SLOTTED_PATHS, slotted_trees()), variables="selectors: xpath, tree (classes created with slots=True)"))
     return Spec(
